@@ -178,6 +178,7 @@ func runC06(sc *c06Scenario) *Violation {
 		case "tlsfail":
 			// the dial succeeds, the TLS handshake does not (the peer hangs up)
 			tc.Cfg.SSL = true
+			tc.Cfg.Timeout = 40 * time.Millisecond
 			tc.S.Prepare(func(c *ircsim.Conn) { c.EOF() })
 		case "noserver":
 			tc.Cfg.Server = ""
@@ -206,6 +207,24 @@ func runC06(sc *c06Scenario) *Violation {
 		}
 		if cnt.disconnected.Load() != 0 {
 			return fail("Close on a client that never connected fired DISCONNECTED")
+		}
+		if sc.Negative == "tlsfail" {
+			// the application falls back to a plain connection: nothing left over from the failed attempt
+			// (a watchdog, a half-open socket) may end it
+			tc.Cfg.SSL = false
+			tc.S.Prepare(nil)
+			if err := tc.C.Connect(); err != nil {
+				return fail("plain Connect after a failed TLS attempt: %v", err)
+			}
+			time.Sleep(3 * tc.Cfg.Timeout)
+			// (no PING round trip here: with flood control on and a 5 ms PingFreq the answer would queue up
+			// behind seconds of rate-limited keep-alives)
+			if !tc.C.Connected() || tc.conn().Closed() {
+				return fail("the connection made after a failed TLS attempt was ended %v later although nothing ended it", 3*tc.Cfg.Timeout)
+			}
+			if r, d := cnt.register.Load(), cnt.disconnected.Load(); r != 1 || d != 0 {
+				return fail("after a failed TLS attempt and a successful plain Connect: REGISTER=%d DISCONNECTED=%d", r, d)
+			}
 		}
 		return nil
 	case "close_unconnected":
